@@ -400,6 +400,43 @@ pub fn main(subjects: Vec<Box<dyn DynSubject>>, lay: (Layouts, BTreeMap<String, 
         }
     });
     let mut rep = merged.into_inner().unwrap();
+    // same-name twin types (see render.rs) once more, all on this one thread and in order: state that the code
+    // under test keeps per thread and per type *name* is then shared between the two types of a pair
+    let twin_replay = replay.as_ref().map_or(false, |r| r.get("subject").and_then(|s| s.as_str()).map_or(false, |s| s.contains("::twin")));
+    if (replay.is_none() || twin_replay) && prop != "C16" && prop != "C09" && rep.failures.is_empty() {
+        let twins: Vec<usize> = idxs.iter().copied().filter(|i| subjects[*i].name().contains("::twin")).collect();
+        if !twins.is_empty() {
+            let ctx = Ctx { u: &u, model: Model::new(&u, &lay.0), units: &lay.1, tier, seed: seed ^ 0x7717, prop: prop.clone(), cases: default_cases.min(24), tmp: tmp.clone(), known: &known };
+            let res = std::thread::scope(|sc| {
+                std::thread::Builder::new()
+                    .stack_size(256 << 20)
+                    .spawn_scoped(sc, || {
+                        install_panic_hook();
+                        let mut local = Report::default();
+                        for round in 0..2 {
+                            for &i in &twins {
+                                let mut r = Report::default();
+                                let _ = guard(|| match &replay {
+                                    Some(rj) if rj.get("subject").and_then(|s| s.as_str()) == Some(subjects[i].name()) => crate::checks::replay(&ctx, &*subjects[i], &u.subjects[i], rj, &mut r),
+                                    // (the sibling types are exercised first, as in the run that failed)
+                                    Some(_) => check(&ctx, &*subjects[i], &u.subjects[i], &mut Report::default()),
+                                    None => check(&ctx, &*subjects[i], &u.subjects[i], &mut r),
+                                });
+                                r.class("twin-types-on-one-thread");
+                                let _ = round;
+                                local.merge(r);
+                            }
+                        }
+                        local
+                    })
+                    .unwrap()
+                    .join()
+            });
+            if let Ok(local) = res {
+                rep.merge(local);
+            }
+        }
+    }
     if prop == "C08" && u.label == "extra" && only.is_none() && from == 0 && replay.as_ref().map_or(true, |r| !r["env"]["bigfile"].is_null()) {
         let t0 = std::time::Instant::now();
         rep.merge(crate::checks::bigfile::run(tier, seed, &tmp, replay.as_ref()));
